@@ -15,7 +15,7 @@ import z3
 
 from .values import *  # noqa
 from .values import SV, VInt, VFloat, VStr, VBytes, VNone, NONE, VNative, NOTIMPL, VList, VTuple, VDict, VSet, \
-    VObj, VFunc, VModel, VBound, VSuper, VIter, VOpaque, FP, RNE, BYTES, is_concrete
+    VObj, VFunc, VModel, VBound, VSuper, VIter, VOpaque, VSymIter, VSymList, FP, RNE, BYTES, is_concrete
 
 METHODS = {}   # (class, name) -> fn(run, self, *args, **kw)
 CALLS = {}     # id(real callable) -> (obj, fn(run, *args, **kw))
@@ -350,7 +350,11 @@ def int_new(run, clsv, x=None, base=None, **kw):
         h = run.ghost.get("int_of_str")
         if h is not None:
             return VInt(cls, h(run, x))
-        raise Unsupported("int(symbolic str)")
+        # over-approximation: parsing an unknown text yields some integer or raises ValueError
+        run.note("int(<symbolic text>) is abstracted to 'some integer or ValueError'")
+        if run.branch(run.fresh("parses", z3.BoolSort())):
+            return VInt(cls, run.fresh_int("parsed"))
+        run.throw(ValueError, "invalid literal for int()")
     for dn in ("__int__", "__index__", "__trunc__"):
         hit = run.find_attr(x.cls, dn)
         if hit is not None:
@@ -542,7 +546,10 @@ def float_new(run, clsv, x=None):
         h = run.ghost.get("float_of_str")
         if h is not None:
             return VFloat(cls, h(run, x))
-        raise Unsupported("float(symbolic str)")
+        run.note("float(<symbolic text>) is abstracted to 'some double or ValueError'")
+        if run.branch(run.fresh("parses", z3.BoolSort())):
+            return VFloat(cls, run.fresh("parsedf", FP))
+        run.throw(ValueError, "could not convert string to float")
     hit = run.find_attr(x.cls, "__float__")
     if hit is not None:
         r = run.call(run.bind_raw(hit[0], "__float__", hit[1], x, x.cls), [])
@@ -926,6 +933,12 @@ def list_insert(run, self, idx, x):
     return NONE
 
 
+@method(list, "__iadd__")
+def list_iadd(run, self, it):
+    self.items.extend(list(run.iterate(it)))
+    return self
+
+
 @method(list, "reverse")
 def list_reverse(run, self):
     self.items.reverse()
@@ -1155,10 +1168,10 @@ def b_isinstance(run, v, c):
                 raise Unsupported("isinstance of opaque value")
             return issubclass(v.cls, cv.obj)
         if isinstance(cv, VNative):
-            try:
-                return isinstance(_dummy_of(v.cls), cv.obj)
-            except Exception:
-                raise Unsupported("isinstance with non-class")
+            origin = getattr(cv.obj, "__origin__", None)
+            if isinstance(origin, type):
+                return issubclass(v.cls, origin)      # typing.Sequence, typing.Mapping, ... -> their ABC
+            raise Unsupported("isinstance with non-class")
         raise Unsupported("isinstance second argument")
     return mk_bool(run, one(c))
 
@@ -1180,6 +1193,11 @@ def b_issubclass(run, a, b):
 
 @callm(builtins.len)
 def b_len(run, v):
+    if isinstance(v, VSymList):
+        if v.length is None:
+            v.length = run.fresh_int("len")
+            run.assume(v.length >= 0)
+        return VInt(int, v.length)
     hit = run.find_attr(v.cls, "__len__")
     if hit is None:
         run.throw(TypeError, f"object of type '{v.cls.__name__}' has no len()")
@@ -1258,6 +1276,9 @@ def b_next(run, it, *default):
 
 @callm(builtins.map)
 def b_map(run, f, *its):
+    if len(its) == 1 and isinstance(its[0], (VSymIter, VSymList)):
+        src = its[0]
+        return VSymIter(lambda run: run.call(f, [src.next_elem(run)]), "map")
     srcs = [run.iterate(i) for i in its]
 
     def gen():
@@ -1403,7 +1424,7 @@ def b_print(run, *a, **kw):
 
 @callm(builtins.id)
 def b_id(run, v):
-    return VInt(int, run.fresh_int("id"))
+    return VInt(int, id(v))      # identity of the wrapper object: unique per live object within a path
 
 
 @callm(typing.cast)
@@ -1418,6 +1439,23 @@ def b_wraps(run, wrapped, *a, **kw):
 
 @callm(functools.reduce)
 def b_reduce(run, f, it, *init):
+    if isinstance(it, (VSymIter, VSymList)):
+        # Left fold over a sequence of unknown length: inductive scheme with the invariant supplied by the contract.
+        inv = run.ghost.get("fold_inv")
+        if inv is None or not init:
+            raise Unsupported("reduce over a symbolic sequence without a fold invariant")
+        run.check(inv.holds(init[0], inv.summary0()), "fold invariant holds for the initial accumulator")
+        sm = inv.fresh(run)
+        acc = inv.make_acc(run, sm)
+        x = it.next_elem(run)
+        run.ghost["fold_step_summary"] = inv.extend(sm, x)
+        acc2 = run.call(f, [acc, x])
+        run.ghost.pop("fold_step_summary", None)
+        run.check(inv.holds(acc2, inv.extend(sm, x)), "fold invariant preserved by one more element")
+        smf = inv.fresh(run)
+        accf = inv.make_acc(run, smf)
+        run.ghost["fold_final_summary"] = smf
+        return accf
     src = run.iterate(it)
     if init:
         acc = init[0]
@@ -1479,6 +1517,27 @@ def native_attr(run, v, name):
             return VModel(lambda run, *a, **kw: NONE, f"Logger.{name}")
         if name == "isEnabledFor":
             return VModel(lambda run, *a: mk_bool(run, False), "Logger.isEnabledFor")
+    import re as _re
+    if isinstance(obj, (_re.Pattern, _re.Match)):
+        attr = getattr(obj, name)
+        if not callable(attr):
+            return _se().lift(attr)
+
+        def folded(run, *a, **kw):
+            se = _se()
+            if not (all(is_concrete(x) for x in a) and all(is_concrete(x) for x in kw.values())):
+                h = run.ghost.get("regex_method")
+                if h is not None:
+                    return h(run, obj, name, a, kw)
+                raise Unsupported(f"re method {name} on symbolic text")
+            try:
+                r = attr(*[se.conc(x) for x in a], **{k: se.conc(v) for k, v in kw.items()})
+            except Exception as ex:
+                run.throw(type(ex), *ex.args)
+            if name == "finditer":
+                r = list(r)
+            return se.lift(r)
+        return VModel(folded, f"re.{type(obj).__name__}.{name}")
     if isinstance(obj, dict) and name in ("get", "__getitem__", "keys", "items", "__contains__"):
         # a live module-level dict (e.g. function globals)
         return None
